@@ -128,7 +128,7 @@ theorem add32_eq' (a b : Nat) (h : a + b < 2 ^ 32) : add32 a b = a + b := by
 `b·5^x` is at most a relative `k·2^-61` above `num·2^(64+S)` and at most `k` units of `b` plus a
 relative `k·2^-61` below it. (`num·2^(64+S)/5^x` is the exact value the code aims at.) -/
 theorem negScale_error (num x : Nat) (hn : num < 2 ^ 64) (hx : x ≤ 2 ^ 20) :
-    ∃ b S k, negScale num x = some (b, x + 64 + S) ∧ k ≤ x / 27 + 1 ∧
+    ∃ b S k, negScale num x = some (b, x + 64 + S) ∧ k ≤ x / 27 + 1 ∧ S ≤ 64 * (x / 27 + 1) ∧
       b * 5 ^ x * 2 ^ 61 ≤ num * 2 ^ (64 + S) * (2 ^ 61 + k) ∧
       num * 2 ^ (64 + S) * 2 ^ 61 ≤ (b + k) * 5 ^ x * (2 ^ 61 + k) := by
   obtain ⟨r27, s27, hr27, hs27, hcases⟩ := negScale_closed num x hn
@@ -146,7 +146,8 @@ theorem negScale_error (num x : Nat) (hn : num < 2 ^ 64) (hx : x ≤ 2 ^ 20) :
   simp only [Nat.one_mul, Nat.zero_add] at hloop
   obtain ⟨l1, l2⟩ := hloop
   rcases hcases with ⟨h0, hps⟩ | ⟨h0, rj, sj, hrj, hsj, hps⟩
-  · refine ⟨negIter r27 (x / 27) (num * 2 ^ 64), s27 * (x / 27), x / 27, by rw [hps, hsh1], by omega, ?_, ?_⟩
+  · refine ⟨negIter r27 (x / 27) (num * 2 ^ 64), s27 * (x / 27), x / 27, by rw [hps, hsh1], by omega,
+      by rw [hs27v]; omega, ?_, ?_⟩
     · have e : 27 * (x / 27) = x := by omega
       rw [e] at l1
       rw [Nat.pow_add, ← Nat.mul_assoc]; exact l1
@@ -158,7 +159,8 @@ theorem negScale_error (num x : Nat) (hn : num < 2 ^ 64) (hx : x ≤ 2 ^ 20) :
     have hsj32 : sj < 64 := by
       have : ∀ i, i < 28 → ∀ s, powerOfOneOverFiveShift[i]? = some s → s < 64 := by decide
       exact this _ hjlt _ hsj
-    refine ⟨negIter r27 (x / 27) (num * 2 ^ 64) * rj / 2 ^ 64, s27 * (x / 27) + sj, x / 27 + 1, ?_, by omega, ?_, ?_⟩
+    refine ⟨negIter r27 (x / 27) (num * 2 ^ 64) * rj / 2 ^ 64, s27 * (x / 27) + sj, x / 27 + 1, ?_, by omega,
+      by rw [hs27v]; omega, ?_, ?_⟩
     · rw [hps, hsh1, add32_eq' _ _ (by rw [hs27v]; omega)]
       congr 2
       omega
